@@ -259,3 +259,46 @@ Proof.
   - rewrite <- !Permutation_rev. exact HP.
   - eapply Permutation_NoDup; [apply Permutation_map; apply Permutation_rev | exact ND].
 Qed.
+
+(* ---- selection: the dict select_all_markers RETURNS (keys in order) does not depend on the
+   order in which the workers filled output_dict (distinct parents) *)
+Theorem selection_result_order_independent : forall (A : Type) (parents : list Z) (f1 f2 : list (Z * A)),
+  Permutation f1 f2 -> NoDup (map fst f1) -> selection_result parents f1 = selection_result parents f2.
+Proof.
+  intros A parents f1 f2 HP ND.
+  assert (HZ : forall p, zassoc p (rev f1) = zassoc p (rev f2)).
+  { intros p. apply zassoc_perm.
+    - rewrite <- !Permutation_rev. exact HP.
+    - eapply Permutation_NoDup; [apply Permutation_map; apply Permutation_rev | exact ND]. }
+  induction parents as [|p ps IH]; cbn [selection_result]; [reflexivity|].
+  rewrite (HZ p), IH. reflexivity.
+Qed.
+
+(* its keys are parent_list, in that order, and each value is the one filled for that parent *)
+Theorem selection_result_keys : forall (A : Type) (parents : list Z) (f : list (Z * A)) (l : list (Z * A)),
+  selection_result parents f = Some l ->
+  map fst l = parents /\ (forall p v, In (p, v) l -> In (p, v) f).
+Proof.
+  intros A parents f. induction parents as [|p ps IH]; cbn [selection_result]; intros l H.
+  - inversion H; subst. split; [reflexivity | intros p v []].
+  - destruct (zassoc p (rev f)) as [v|] eqn:E; [|discriminate].
+    destruct (selection_result ps f) as [l'|] eqn:E'; [|discriminate].
+    inversion H; subst. destruct (IH l' eq_refl) as [IH1 IH2].
+    split; [cbn; rewrite IH1; reflexivity|].
+    intros q w [Hq | Hq].
+    + inversion Hq; subst. apply zassoc_in in E. apply in_rev. exact E.
+    + apply IH2. exact Hq.
+Qed.
+
+(* every parent of parent_list was filled (each worker sets output_dict[parent] before it exits
+   with code 0) -> there is a result *)
+Theorem selection_result_total : forall (A : Type) (parents : list Z) (f : list (Z * A)),
+  (forall p, In p parents -> In p (map fst f)) -> exists l, selection_result parents f = Some l.
+Proof.
+  intros A parents f. induction parents as [|p ps IH]; cbn [selection_result]; intros H.
+  - exists []. reflexivity.
+  - destruct (IH (fun q Hq => H q (or_intror Hq))) as [l' E']. rewrite E'.
+    destruct (zassoc p (rev f)) as [v|] eqn:E.
+    + exists ((p, v) :: l'). reflexivity.
+    + exfalso. apply zassoc_none in E. apply E. rewrite map_rev. apply -> in_rev. apply H. left. reflexivity.
+Qed.
